@@ -360,6 +360,11 @@ func init() { oracles["mux"] = muxOracle }
 // muxOracle: C15/C08/C09 stated on the implementation — demux(mux(c,p)) = (c,p); demux never panics;
 // a payload of exactly MTU() is accepted and delivered to the channel it was told on and only there.
 func muxOracle(r *rand.Rand, n int, tier string, infile string) (cases int, fails []string) {
+	if oracleOffset == 0 {
+		// the open-channel table decides delivery, also after a channel was closed and opened again
+		muxReopenDeliveryCase(func(f string, a ...any) { fails = append(fails, fmt.Sprintf(f, a...)) })
+		cases++
+	}
 	try := func(k, c string, p []byte) {
 		cases++
 		f := muxDo(k, c, p)
